@@ -211,7 +211,7 @@ class Gen:
     def e_map(self, d):
         rnd = self.rnd
         kvs = []
-        for _ in range(rnd.randint(0, 3)):
+        for _ in range(rnd.randint(0, 1) if self.features.get("onekeymaps") else rnd.randint(0, 3)):
             k = I(rnd.randint(0, 3)) if self.chance(0.6) else lit(vstr(rnd.choice(["a", "b", ""])))
             kvs.append((self.probe(k), self.probe(self.e_int(max(0, d - 1)))))
         return map_(*kvs)
